@@ -1220,6 +1220,8 @@ class PyFlow:
             return out
         if fname == "min" and isinstance(f, ast.Name):
             return [(q, vmin(vals)) for q, vals in self.ev_many(e.args, p, depth, no_effect=no_effect)]
+        if fname == "max" and isinstance(f, ast.Name) and len(e.args) >= 2:
+            return [(q, call("max", *vals)) for q, vals in self.ev_many(e.args, p, depth, no_effect=no_effect)]
         if fname == "int" and isinstance(f, ast.Name) and len(e.args) == 1:
             a0 = e.args[0]
             if isinstance(a0, ast.BinOp) and isinstance(a0.op, ast.Div):
